@@ -397,6 +397,11 @@ def size_varint(value: int) -> int:
         return math.ceil(value.bit_length() / 7)
 
 
+def _is_negative_zero(value: Any) -> bool:
+    """-0.0 compares equal to the default 0.0 but is a different float value."""
+    return isinstance(value, float) and value == 0 and math.copysign(1.0, value) < 0
+
+
 def _preprocess_single(proto_type: str, wraps: str, value: Any) -> bytes:
     """Adjusts values before serialization."""
     if proto_type in (
@@ -1069,7 +1074,10 @@ class Message(ABC):
             )
 
             if value == self._get_field_default(field_name) and not (
-                selected_in_group or serialize_empty or include_default_value_for_oneof
+                selected_in_group
+                or serialize_empty
+                or include_default_value_for_oneof
+                or _is_negative_zero(value)
             ):
                 # Default (zero) values are not serialized. Two exceptions are
                 # if this is the selected oneof item or if we know we have to
@@ -1182,7 +1190,10 @@ class Message(ABC):
             )
 
             if value == self._get_field_default(field_name) and not (
-                selected_in_group or serialize_empty or include_default_value_for_oneof
+                selected_in_group
+                or serialize_empty
+                or include_default_value_for_oneof
+                or _is_negative_zero(value)
             ):
                 # Default (zero) values are not serialized. Two exceptions are
                 # if this is the selected oneof item or if we know we have to
@@ -1657,6 +1668,7 @@ class Message(ABC):
                     output[cased_name] = output_map
             elif (
                 value != self._get_field_default(field_name)
+                or _is_negative_zero(value)
                 or include_default_values
                 or self._include_default_value_for_oneof(
                     field_name=field_name, meta=meta
@@ -1983,6 +1995,7 @@ class Message(ABC):
                     output[cased_name] = output_map
             elif (
                 value != self._get_field_default(field_name)
+                or _is_negative_zero(value)
                 or include_default_values
                 or self._include_default_value_for_oneof(
                     field_name=field_name, meta=meta
